@@ -113,7 +113,23 @@ HOLD_OUTSIDE_PROTOCOL = [
     ("define_step", ("root", ""), "s", ("p",), (), (), (), "PLAN"),
     ("hold", "s"),
 ]
-FIXED_TRACES = {"self-definition": SELF_DEFINITION, "hold-outside-protocol": HOLD_OUTSIDE_PROTOCOL}
+DEFINE_OWN_CREATOR = [
+    ("declare_static", ("root", ""), ("plan.py",)),
+    ("update_hashes", "CONFIRMED", (("plan.py", 1),)),
+    ("define_step", ("root", ""), "./plan.py", ("plan.py",), (), (), (), "PLAN"),
+    ("dispatch", "./plan.py"),
+    ("reset_for_rerun", "./plan.py"),
+    ("define_step", ("step", "./plan.py"), "K", (), (), (), (), "DEFAULT"),
+    ("dispatch", "K"),
+    ("reset_for_rerun", "K"),
+    ("define_step", ("step", "K"), "C", (), (), (), (), "DEFAULT"),
+    ("dispatch", "C"),
+    ("reset_for_rerun", "C"),
+    ("exec_end", "./plan.py", (), "FAILED", (), False, False),
+    ("define_step", ("step", "C"), "K", (), (), (), (), "DEFAULT"),
+]
+FIXED_TRACES = {"self-definition": SELF_DEFINITION, "hold-outside-protocol": HOLD_OUTSIDE_PROTOCOL,
+                "define-own-creator": DEFINE_OWN_CREATOR}
 
 
 async def _run_fixed(ops):
@@ -142,10 +158,12 @@ async def _run_fixed(ops):
         impl.close()
 
 
-def internal_signature(op, detail):
+def internal_signature(op, detail, oc="internal"):
     site = op[0]
     if op[0] == "define_step" and tuple(op[1]) == ("step", op[2]):
         site = "define_step:self-definition"
+    if oc == "hang":
+        return f"oracle:hang:{site}:statement-does-not-terminate"
     return f"oracle:internal-error:{site}:{detail.split(':')[0]}"
 
 
@@ -181,8 +199,8 @@ def oracle(ctx):
             continue
         for j, (op, oc, detail, d) in enumerate(tr):
             ctx.case(("fixed", name, j), nontrivial=True)
-            if oc == "internal":
-                ctx.add_failure("oracle", "internal-error", internal_signature(op, detail),
+            if oc in ("internal", "hang"):
+                ctx.add_failure("oracle", "internal-error", internal_signature(op, detail, oc),
                                 f"fixed witness '{name}': transaction {j} raised an internal error: {op} -> {detail}",
                                 witness={"ops": [list(map(str, t[:2])) for t in tr[: j + 1]]})
                 break
@@ -192,8 +210,8 @@ def oracle(ctx):
                             f"Trellis/Workflow._check_consistency (strict) failed after trace {i}: {strict}",
                             witness={"ops": [list(map(str, t[:2])) for t in tr]})
         for j, (op, oc, detail, d) in enumerate(tr):
-            if oc == "internal":
-                ctx.add_failure("oracle", "internal-error", internal_signature(op, detail),
+            if oc in ("internal", "hang"):
+                ctx.add_failure("oracle", "internal-error", internal_signature(op, detail, oc),
                                 f"transaction {j} of trace {i} raised an internal error: {op} -> {detail}",
                                 witness={"ops": [list(map(str, t[:2])) for t in tr[: j + 1]]})
                 break
